@@ -126,7 +126,7 @@ class RunTeardownCallbacks(FnSpec):
     param_types = {"exc_type": ANY, "original_exception": ANY, "exc_tb": ANY}
     modifies = "rely"
     suspends = True
-    uses_invariants = ("I-td:teardown-lists-are-token-stacks",)
+    uses_invariants = ("I-td:teardown-lists-are-token-stacks", "G-td:teardown-lists-change-by-registration-only")
 
     def requires(self, F):
         c = F.addr("self")
@@ -280,7 +280,7 @@ def register(reg):
     reg.invariants.append(("I-td:teardown-lists-are-token-stacks", inv_td,
                            ("g:ctx_init", "fld:_teardown_callbacks", "l_len") + TD_COMPS, {"lazy": True}))
     reg.guarantees.append(("G-td:teardown-lists-change-by-registration-only", g_td,
-                           ("g:ctx_init", "fld:_teardown_callbacks", "fld:_state", "l_len", "l_item") + TD_COMPS))
+                           ("g:ctx_init", "fld:_teardown_callbacks", "fld:_state", "l_len", "l_item") + TD_COMPS, {"lazy": True}))
     reg.exc_arg_names["BaseExceptionGroup"] = ["message", "exceptions"]
     reg.exc_arg_names["ExceptionGroup"] = ["message", "exceptions"]
     reg.exc_field_types["exceptions"] = LIST(TEXC)
